@@ -1,6 +1,6 @@
 (* Property C03 — theorem statements only, each closed by `exact`, each followed by Print Assumptions. *)
 From Coq Require Import PArith List Bool.
-From C03 Require Import Model Statement ProofsBfs ProofsWatcher ProofsUpdate MiniLang ProofsMini MiniScheme.
+From C03 Require Import Model Statement ProofsBfs ProofsWatcher ProofsUpdate MiniLang ProofsMini MiniScheme MiniEval.
 Import ListNotations.
 
 (* find_targets_recursive: for EVERY deps map and fired set the worklist terminates within
@@ -141,6 +141,14 @@ Proof.
   - intro u. reflexivity.
   - intros u H. contradiction.
 Qed.
+
+(* multiple inheritance in the mini language: the attribute is found in the second base after the whole chain of the
+   first base was searched; every class and member visited is a dependency (in particular the ABSENT member of the first
+   base: if that base gains the attribute the result changes); the second statement is an error *)
+Example minilang_multiple_inheritance :
+  e_reads [(1, mi_mod)] mi_mod (1, Some (6, None)) = [54; 52; 37; 35; 20; 54; 52; 37; 35; 20]%positive /\
+  e_errs [(1, mi_mod)] mi_mod (1, Some (6, None)) = [EAssign].
+Proof. split; vm_compute; reflexivity. Qed.
 
 (* ---- non-vacuity *)
 Example bfs_example :
